@@ -104,7 +104,7 @@ func (dec *Decoder) Decode() (*Document, error) {
 		// Skip blank lines.
 		if line == "" {
 			if dec.AllowMultiLine && previousNode != nil {
-				previousNode.RawSimpleNode().value += "\n"
+				dec.extendNodeValue(previousNode, "\n")
 			}
 
 			continue
@@ -113,7 +113,7 @@ func (dec *Decoder) Decode() (*Document, error) {
 		node, indent, err := parseLine(line, document, family)
 		if err != nil {
 			if dec.AllowMultiLine && previousNode != nil {
-				previousNode.RawSimpleNode().value += "\n" + line
+				dec.extendNodeValue(previousNode, "\n"+line)
 				continue
 			}
 
@@ -191,6 +191,20 @@ func (dec *Decoder) Decode() (*Document, error) {
 	document.buildPointerCache()
 
 	return document, nil
+}
+
+// extendNodeValue is used with AllowMultiLine to treat a line as the
+// continuation of the value of the previous node.
+func (dec *Decoder) extendNodeValue(previousNode Node, s string) {
+	// Individuals and families never carry a value (it is discarded when the
+	// node is created and is not read back from an encoded document), so
+	// there is nothing to extend.
+	switch previousNode.(type) {
+	case *IndividualNode, *FamilyNode:
+		return
+	}
+
+	previousNode.RawSimpleNode().value += s
 }
 
 func (dec *Decoder) trimNodeValue(previousNode Node) {
